@@ -167,6 +167,12 @@ func runC17(c *Ctx) {
 						return false
 					}
 				}
+				if info.State == gen.ApplicationStateStopping && len(info.Group) == 0 {
+					// the last member has left the group and its goroutine is inside application.terminate, about to
+					// flip the state and call Terminate: not a state to judge (if it stayed like this the wait runs out
+					// and the observation is compared as it is)
+					return false
+				}
 				return true
 			})
 			time.Sleep(300 * time.Microsecond)
